@@ -5,7 +5,9 @@ support's conic dual: every assignment feasible for the counterpart rows satisfi
 every realisation of the (lifted) support program; built on conic weak duality.
 Tie: (a) the support stored by forall()/minmax() vs the Lean dual of the support's own primal,
 (b) the constraint list returned by the real `le_to_rc` vs the Lean model, entry by entry,
-(c) ro.Model.st's equality split and default-set rule (checked structurally).
+(c) the late-random-variable block (test_late_rvar.py), (d) the whole compiled program of ro.Model.do_math() vs the Lean
+`roModel` (st order, equality split, default-set rule, objective blocks, multiplier numbering, bound folding, cones):
+`ro_model_sound` lifts rc_sound to every robust block, deterministic row and bound of the whole program.
 Search: solve and evaluate every robust row / the objective at an independently computed worst case."""
 import numpy as np
 from harness import common as C
@@ -20,6 +22,9 @@ THEOREMS = {
         'RsomeV.C01.rc_sound_late\'',
     ],
     'RsomeV.Props.C08': ['RsomeV.C08.cone_dual_weak'],
+    'RsomeV.Props.C01Model': ['RsomeV.C01Model.block_feas', 'RsomeV.C01Model.ro_model_sound', 'RsomeV.C01Model.ro_model_sound_late',
+                              'RsomeV.C01Model.ro_model_sound_eq', 'RsomeV.C01Model.ro_model_sound_obj',
+                              'RsomeV.C01Model.ro_model_sound_obj_plain'],
 }
 RULE = ("random ro models from a description grammar (1-3 decisions, 1-3 random components, optional LDR with random "
         "dependency mask, 1-3 scalar or vector robust rows with <=, >=, == senses, default and per-constraint sets: boxes "
@@ -153,6 +158,9 @@ def run(ctx):
         ctx.sample({"desc": mt['desc'], "constraint": mt['constraint'], "fragment_shape": [mt['code']['nr'], mt['code']['nc']]}, limit=2)
     # ---- (c) the late-random-variable branches of le_to_rc (block 4), dedicated generator -------------------------
     C.run_difftest(ctx, 'test_late_rvar.py', ctx.n(40, 400), 'RoConstr.le_to_rc (random variables declared after the set)')
+    # ---- (d) the whole ro.Model.do_math() assembly (st order, equality split, default set, objective blocks, multiplier
+    #          numbering, bound folding, cones) vs the Lean roModel, entry by entry ------------------------------------
+    C.run_difftest(ctx, 'test_ro_model.py', ctx.n(60, 1200), 'ro.Model.do_math (whole compiled program of an ro model)')
     # ---- search --------------------------------------------------------------------------
     bad = {id(dg['case'].get('desc')) for dg in ctx.disagreements}
     order = sorted(range(len(descs)), key=lambda i: 0 if id(descs[i]) in bad else 1)
